@@ -156,11 +156,50 @@ NEEDS_R3 = {
  "C18-m2": ("char_gen.go Generate: a trace gated on the SPG_TRACE environment variable logs every rejected candidate", "SPG_TRACE set and a recipe that retries"),
 }
 
+NEEDS_R4 = {
+ "C01-m1": ("util.go randomUint32: rand.Reader.Read(b[:]) with the returned byte count ignored — a reader delivering fewer than 4 bytes leaves the low-order bytes zero", "a source that returns 1-3 bytes per read"),
+ "C01-m2": ("util.go randomUint32n: a rejected word is 'repaired' with v<<8 | one fresh byte instead of being redrawn whole", "a single rejected raw word (bias about n/2^32/256, 5 bytes consumed instead of 8)"),
+ "C02-m1": ("char_sets.go setFromString: ranges over runes and skips utf8.RuneError without checking the width — a validly encoded U+FFFD disappears", "U+FFFD in AllowChars, RequireSets or ExcludeChars"),
+ "C02-m2": ("char_gen.go Generate: last-recipe cache keyed by fmt.Sprint(r) — RequireSets {\"a b\"} and {\"a\",\"b\"} print alike", "two recipes with colliding %v images used one after the other"),
+ "C03-m1": ("char_gen.go: the custom-set guard len(s) > 0 becomes len(strings.TrimSpace(s)) > 0 — a whitespace-only required set is neither enforced nor added to the alphabet", "a required set made only of blanks (space, TAB, NBSP)"),
+ "C03-m2": ("char_gen.go Alphabet(): the joined string is sorted as bytes instead of sorting the characters", "any alphabet with a non-ASCII character (invalid UTF-8 comes back)"),
+ "C04-m1": ("word_gen.go Generate (scheme random): when every coin comes up tails one position is drawn and capitalised", "the all-tails draw (probability 2^-Length)"),
+ "C04-m2": ("word_gen.go word loop: bit pool for power-of-two lists refilled on avail <= 0 instead of avail < width", "a list of 2^k words with k not dividing 32 and Length > 32/k (8 words: every 11th word from only 4 entries)"),
+ "C05-m1": ("word_gen.go Generate: strings.Title(strings.ToLower(w)) while NewWordList/Entropy classify with Title", "an entry with inner capitals or special case mappings at a capitalised position (iPhone, ALPHA, 1A)"),
+ "C05-m2": ("word_gen.go (scheme one): the position draw wrapped in if Length > 1 — Length 1 capitalises nothing", "scheme one with Length 1"),
+ "C06-m1": ("word_gen.go (scheme random): the coins come from one 32-bit word, position i takes bit i%32", "scheme random with Length >= 33 (positions i and i+32 always agree; Entropy still adds Length bits)"),
+ "C06-m2": ("char_gen.go Generate: on the last permitted attempt a failing candidate is 'repaired' by planting members of the missing required sets", "a stream on which all earlier attempts and the last one miss a requirement"),
+ "C07-m1": ("char_gen.go Entropy: with required sets and Length > 512 the simple Length*log2(alphabet) formula is used", "a required set tiny relative to the alphabet (1000 characters allowed, two required) at Length 513 and more"),
+ "C07-m2": ("char_strength.go n(): the empty-set skip moved into the recursion as 'no members in this alphabet' — a later required set contained in an earlier one is dropped in the avoiding branch", "a subset listed after its superset (order-dependent, map-order-dependent with class flags)"),
+ "C08-m1": ("word_gen.go Entropy: early return 0 for lists of fewer than 2 words", "a one-word list (single, repeated, or a twin pair) with scheme random/one or a separator function"),
+ "C08-m2": ("word_gen.go Entropy: the separator term guarded by SeparatorChar == \"\" && SeparatorFunc != nil", "both separator fields set"),
+ "C09-m1": ("word_gen.go Generate (scheme random): the coin flips walk the map of positions — which coin goes to which word comes from Go's map iteration order", "replaying the same bytes (no statistical test can see it)"),
+ "C09-m2": ("util.go randomUint32n: the power-of-two path inlined with rand.Read into a stack buffer and the error check lost", "a failing read at a draw with a 2^k bound (coin flips, 16- or 64-character alphabets, lists of 2^k words)"),
+ "C10-m1": ("word_gen.go NewWordList: dedup map holds first-seen indices and the twin test is unique[cap] > 0 — a twin first seen at index 0 looks absent", "the capitalised twin as the first element of the input"),
+ "C10-m2": ("word_gen.go NewWordList: zero-length words skipped ('blank line in a word file')", "a list containing the empty string"),
+ "C11-m1": ("token.go MakeIndices: token lengths counted in UTF-16 units", "a token with a character outside the BMP"),
+ "C11-m2": ("token.go maxTokenLen (used by Kind): combining marks (category Mn) not counted", "an all-atom password whose every atom is a base letter plus combining marks"),
+ "C12-m1": ("token.go Tokenize: the per-token bounds check replaced by one check of the total, summed into a uint8", "lengths totalling 256 or more against a password shorter than the total but at least total mod 256"),
+ "C12-m2": ("token.go Tokenize: the empty-index guard len(ti) == 0 becomes ti == nil", "an empty non-nil index (Indices{}, make(Indices,0), stored[:0])"),
+ "C13-m1": ("char_strength.go n() base case: uint64 multiply loop when length*log2(size) <= 64 (should be < 64) — a count of exactly 2^64 wraps to 0", "a power-of-two alphabet with length*log2(size) == 64 and a required set (16 characters x Length 16)"),
+ "C13-m2": ("char_gen.go hasAcceptableFailRate: 'pigeonhole' refusal when there are more required sets than Length", "overlapping required sets, or sets emptied by exclusion, with Length below their number"),
+ "C14-m1": ("char_gen.go: the 'Custom N' names come from a package-level slice pre-filled with four names and appended on demand", "recipes with more than four RequireSets first used concurrently"),
+ "C14-m2": ("char_gen.go: alphabets of class-only recipes cached in a sync.Map; Alphabet() sorts the shared cached slice in place", "the first Alphabet() of a class combination concurrent with Generate or another Alphabet()"),
+ "C15-m1": ("char_strength.go SuccessProbability: strings.Join(append(r.RequireSets, r.AllowChars), \"\") writes into the caller's backing array when RequireSets has spare capacity", "RequireSets passed as a prefix of a longer table"),
+ "C15-m2": ("word_gen.go NewSFFunction: the separator's entropy captured from the first call with a sync.Once", "a first call that fails (all attempts miss a requirement): every later call reports 0 bits"),
+ "C16-m1": ("word_gen.go sfWrap + util.go nFromString: a fast path for requirement-free separator recipes picking with randomUint32() % n", "a raw word in the top 2^32 mod n values (outputs and entropies identical, modulo bias)"),
+ "C16-m2": ("char_gen.go constants: a sentinel after Ambiguous and All = sentinel - 1 — All includes Ambiguous", "the constant itself, or Require: All without the default exclusion"),
+ "C17-m1": ("cmd/opgen main: log.SetOutput(os.Stdout) — the library's duplicate-word notice lands on standard output before the password", "--file with a repeated word or a twin pair"),
+ "C17-m2": ("cmd/opgen charGenerator: recipe.Exclude &^= recipe.Require", "a class both in --require and in the effective --exclude"),
+ "C18-m1": ("word_gen.go Generate: a deferred recover() logs the tokens drawn so far when the random source fails, then re-panics", "a source that fails after at least one word draw"),
+ "C18-m2": ("token.go MakeIndices: a token over 255 characters is logged (first 12 characters, %.12q) before the error is returned", "a wordlist password with an entry or separator beyond 255 characters, then MakeIndices"),
+}
+
 
 def main():
     src = sys.argv[1]
     rnd = sys.argv[2] if len(sys.argv) > 2 else ""        # "" for round 1, "r2" for round 2
-    needs = NEEDS_R3 if rnd == "r3" else NEEDS_R2 if rnd == "r2" else NEEDS
+    needs = NEEDS_R4 if rnd == "r4" else NEEDS_R3 if rnd == "r3" else NEEDS_R2 if rnd == "r2" else NEEDS
     verify = {}
     vf = os.path.join(src, "verify.jsonl")
     if os.path.exists(vf):
